@@ -124,22 +124,33 @@ impl Run {
         let mut known_hit = vec![];
         let dir = format!("{}/replays/{}", verif_dir(), self.prop);
         let mut lines = vec![];
-        let mut known_lines: BTreeMap<String, (usize, Vec<String>)> = BTreeMap::new();
-        for (class, vs) in by_class.iter() {
-            if let Some(k) = known.iter().find(|k| k.prop == self.prop && class_matches(&k.class, class)) {
-                let e = known_lines.entry(k.note.clone()).or_insert((0, vec![]));
-                e.0 += vs.len();
-                e.1.push(class.clone());
-                known_hit.push(json!({"class": class, "instances": vs.len()}));
-                continue;
+        let mut known_lines: BTreeMap<String, (usize, Vec<String>, String)> = BTreeMap::new();
+        // the directory describes the latest run only
+        if let Ok(rd) = std::fs::read_dir(&dir) {
+            for f in rd.flatten() {
+                if f.path().extension().map(|e| e == "json").unwrap_or(false) {
+                    let _ = std::fs::remove_file(f.path());
+                }
             }
-            new_violations += 1;
+        }
+        for (class, vs) in by_class.iter() {
             // shortest instance = smallest replay json
             let v = vs.iter().min_by_key(|v| v.replay.to_string().len()).unwrap();
             let _ = std::fs::create_dir_all(&dir);
             let mut h = std::collections::hash_map::DefaultHasher::new();
             use std::hash::{Hash, Hasher};
             class.hash(&mut h);
+            if let Some(k) = known.iter().find(|k| k.prop == self.prop && class_matches(&k.class, class)) {
+                let path = format!("{}/known-{:016x}.json", dir, h.finish());
+                let body = json!({"property": self.prop, "class": class, "detail": v.detail, "instances_this_run": vs.len(), "known_finding": k.note, "replay": v.replay});
+                let _ = std::fs::write(&path, serde_json::to_string_pretty(&body).unwrap());
+                let e = known_lines.entry(k.note.clone()).or_insert((0, vec![], path));
+                e.0 += vs.len();
+                e.1.push(class.clone());
+                known_hit.push(json!({"class": class, "instances": vs.len()}));
+                continue;
+            }
+            new_violations += 1;
             let path = format!("{}/{:016x}.json", dir, h.finish());
             let body = json!({
                 "property": self.prop,
@@ -153,8 +164,8 @@ impl Run {
             lines.push(format!("  class: {}", class));
             lines.push(format!("  detail: {}", v.detail));
         }
-        for (note, (n, classes)) in known_lines.iter() {
-            lines.insert(0, format!("KNOWN-FINDING: property={} {} [{} instance(s) this run in {} class(es)]", self.prop, note, n, classes.len()));
+        for (note, (n, classes, path)) in known_lines.iter() {
+            lines.insert(0, format!("KNOWN-FINDING: property={} {} [{} instance(s) this run in {} class(es); replay {}]", self.prop, note, n, classes.len(), path));
         }
         let wall = self.start.elapsed().as_secs_f64();
         let mut cov = coverage;
